@@ -14,7 +14,7 @@ TRUST = ("Trusted base: go/packages loader, go/types, golang.org/x/tools/go/ssa 
 # id -> (technique, level text, design ref, extra note)
 CLAIMED = {
     "C01": ("symbolic interpretation of the decoder's SSA along every success path (forced branches, enumerated forks, one symbolic loop element) giving field origins over the BER tree; comparison with an RFC 4511 table; branch-table extraction for the kind maps",
-            "Decides position, accessor, order and completeness of every decoded field, the class/type/tag assertions, the protocolOp->kind->message->operation bijection and the version gate, for all inputs at once; values are never inspected. ldap.DecompileFilter / ber.ReadPacket are trusted.",
+            "Decides position, accessor, order and completeness of every decoded field, the class/type/tag and child-count assertions, that the decode path gives up only on conditions about the BER shape (never on the bytes of a value), the protocolOp->kind->message->operation bijection and the version gate, for all inputs at once; values are never inspected. ldap.DecompileFilter / ber.ReadPacket are trusted.",
             "2/C01", ""),
     "C02": ("panic-site enumeration over the decode call-graph slice + forward must-dataflow of guard facts on SSA (access-path keys, callee success summaries, functional-option contexts)",
             "Sound for the enumerated panic classes in gldap's own decode code for every BER tree ber.ReadPacket can return, modulo the listed library facts; the connection-level recover is not accepted as a guard. Library-internal resource exhaustion is not decided.",
@@ -35,7 +35,7 @@ CLAIMED = {
             "Decides, for every pipeline, that Request.ID is the read loop's 1,2,3,... counter and that no path of the read loop runs or waits for a handler except for Unbind/StartTLS; scheduler progress is not decided.",
             "2/C06", ""),
     "C08": ("CFG ordering / exactly-once path rules on the per-connection teardown, who-calls scans, WaitGroup pairing",
-            "Decides on every exit path: teardown registered first, Wait -> Close -> OnClose each exactly once, nobody else closes or reports, Add/Done pairing; the run-time census of goroutines/descriptors is not decided.",
+            "Decides on every exit path: teardown registered first, Wait -> Close -> OnClose each exactly once with the connection's own ID, nobody else closes or reports, Add/Done pairing; the run-time census of goroutines/descriptors is not decided.",
             "2/C08", ""),
     "C09": ("SSA induction-variable and who-writes provenance",
             "Connection ID is a private strictly increasing loop counter, immutable after newConn, returned by the getter and handed unchanged to OnClose; uniqueness within one Run.",
@@ -50,7 +50,7 @@ CLAIMED = {
             "Decides the ordering/pairing quiescence depends on: Done last, every connWg.Add matched and ordered with Stop's Wait (reserved under the lock Stop holds), handlers waited for, no other goroutine handed an accepted connection, listener released on every Run exit, Stop returns nil only after cancel+Wait, idempotent. Kernel port state is not decided.",
             "2/C12", ""),
     "C13": ("control-dependence of the StartTLS dispatch site, value provenance in StartTLS/initConn, lock-set, socket-use discipline scan",
-            "Decides that no LDAP read can interleave with the upgrade and that after it all I/O goes through the TLS reader/writer pair built from the handshaken connection, and that no deadline armed during the upgrade outlives it; crypto/tls behaviour is trusted.",
+            "Decides that no LDAP read can interleave with the upgrade and that after it all I/O goes through the TLS reader/writer pair built from the handshaken connection, that no deadline armed during the upgrade outlives it, and that every request read is dispatched exactly once; crypto/tls behaviour is trusted.",
             "2/C13", ""),
     "C14": ("BER tree grammar of every control encoder (all paths) against RFC 4511 / RFC 2696 / draft-behera-10 / draft-vchu-00; attachment position; truth table of the Behera constructor",
             "Decides agreement of every control's encoding with the published grammars (what an independent client parses; ber.AppendChild modelled as a copy at call time), the attachment of controls in both directions, the Behera constructor's validation, and per-field encode->decode composition through a wire-tree oracle, including that the decoder rejects no value of the field types (integer range arithmetic on its error branches). Values are never inspected.",
@@ -59,16 +59,16 @@ CLAIMED = {
             "Race freedom on the state of conn, Server, Mux, ResponseWriter and Directory under the stated goroutine structure (fields not in the table are classified from their accesses: sync type / written only during construction / always under one mutex of the struct, otherwise undecided). No schedule is explored.",
             "2/C15", ""),
     "C16": ("panic-site enumeration (engine E2) from the exported helper/constructor entries with caller-controlled parameters; sibling layout comparison for SID; order-taint and paired-write scans",
-            "Decides panic freedom (enumerated classes) for all argument values and option subsets, deterministic attribute order and paired string/byte values; the value-level inverse clauses are not decided.",
+            "Decides panic freedom (enumerated classes) for all argument values and option subsets, deterministic attribute order, paired string/byte values and the Behera constructor's validation table; the value-level inverse clauses are not decided.",
             "2/C16", ""),
     "C17": ("control-dependence of flag stores on net.Listen's error + who-writes + lock-set",
-            "Decides the only-if-bound direction for every address and schedule, that Run does not give up between Ready and the first Accept, and that nothing the accept loop does between two Accepts waits for a single client (no server lock taken by connections, no handshake / read / write on the accepted connection); kernel accept behaviour is not decided.",
+            "Decides the only-if-bound direction for every address and schedule, that Run does not give up between Ready and the first Accept, and that nothing the accept loop does between two Accepts waits for a single client (no server lock taken by connections, no handshake / read / write on the accepted connection), and that a setup deadline taken from a configured timeout is armed only when that timeout is configured; kernel accept behaviour is not decided.",
             "2/C17", ""),
     "C18": ("listener provenance through functional-option summaries, socket-use discipline, constant/provenance checks on the test directory's tls.Config",
-            "Decides that on a TLS port the only byte source of a handler is a tls.Conn created from exactly the configured policy (stream provenance of every initConn call), and that the test directory's mTLS policy requires and verifies client certificates; crypto/tls is trusted.",
+            "Decides that on a TLS port the only byte source of a handler is a tls.Conn created from exactly the configured policy (stream provenance of every initConn call), that the test directory's mTLS policy requires and verifies client certificates and that its CA issues leaf certificates only; crypto/tls is trusted.",
             "2/C18", ""),
     "C19": ("decision-table walk (engine E4) of the bind handler's CFG over canonical branch atoms, compared row by row with the reference formula",
-            "Decides the if-and-only-if of the statement for every user set, DN and password (one symbolic user = existential over the list), independent of transport.",
+            "Decides the if-and-only-if of the statement for every user set, DN and password (one symbolic user = existential over the list), independent of transport; and (import of the C01 rules for SimpleBindMessage) that the handler decides on the name and password as sent and that every bind reaches it.",
             "2/C19", ""),
     "C20": ("per-handler effect analysis: stores reachable from the matched entry on every path of each modify arm, success/store pairing by path search, default-code and result-source provenance",
             "Necessary per-handler clauses only (effects exist, success pairs with the store, codes, result source, Set* stores exactly the given population in storage of its own); whole operation histories against a reference model are not replayed.",
